@@ -1278,13 +1278,16 @@ err_t bakeBSTSRunB(octet key[32], const bign_params* params,
 	else
 	{
 		blob_t M2 = 0;
+		blob_t t;
 		while (code == ERR_OK)
 		{
-			if ((M2 = blobResize(M2, blobSize(M2) + len)) == 0)
+			if ((t = blobResize(M2, blobSize(M2) + len)) == 0)
 			{
+				blobClose(M2);
 				blobClose(blob);
 				return ERR_OUTOFMEMORY;
 			}
+			M2 = t;
 			memCopy((octet*)M2 + blobSize(M2) - len, in, len);
 			code = read(&len, in, 512, file);
 		}
@@ -1294,11 +1297,13 @@ err_t bakeBSTSRunB(octet key[32], const bign_params* params,
 			blobClose(blob);
 			return code;
 		}
-		if ((M2 = blobResize(M2, blobSize(M2) + len)) == 0)
+		if ((t = blobResize(M2, blobSize(M2) + len)) == 0)
 		{
+			blobClose(M2);
 			blobClose(blob);
 			return ERR_OUTOFMEMORY;
 		}
+		M2 = t;
 		memCopy((octet*)M2 + blobSize(M2) - len, in, len);
 		code = bakeBSTSStep4(out, M2, blobSize(M2), vala, state);
 		blobClose(M2);
@@ -1367,13 +1372,16 @@ err_t bakeBSTSRunA(octet key[32], const bign_params* params,
 	else
 	{
 		blob_t M3 = 0;
+		blob_t t;
 		while (code == ERR_OK)
 		{
-			if ((M3 = blobResize(M3, blobSize(M3) + len)) == 0)
+			if ((t = blobResize(M3, blobSize(M3) + len)) == 0)
 			{
+				blobClose(M3);
 				blobClose(blob);
 				return ERR_OUTOFMEMORY;
 			}
+			M3 = t;
 			memCopy((octet*)M3 + blobSize(M3) - len, in, len);
 			code = read(&len, in, 512, file);
 		}
@@ -1383,11 +1391,13 @@ err_t bakeBSTSRunA(octet key[32], const bign_params* params,
 			blobClose(blob);
 			return code;
 		}
-		if ((M3 = blobResize(M3, blobSize(M3) + len)) == 0)
+		if ((t = blobResize(M3, blobSize(M3) + len)) == 0)
 		{
+			blobClose(M3);
 			blobClose(blob);
 			return ERR_OUTOFMEMORY;
 		}
+		M3 = t;
 		memCopy((octet*)M3 + blobSize(M3) - len, in, len);
 		code = bakeBSTSStep5(M3, blobSize(M3), valb, state);
 		blobClose(M3);
